@@ -564,6 +564,8 @@ func (m *metadataAPI) ShrinkISR(ctx context.Context, req *proto.ShrinkISROp) *st
 				leader, epoch, req.Leader, req.LeaderEpoch))
 	}
 
+	verifPoint("ShrinkISR:request-checked")
+
 	// Replicate ISR shrink through Raft.
 	op := &proto.RaftLog{
 		Op:          proto.Op_SHRINK_ISR,
@@ -614,6 +616,8 @@ func (m *metadataAPI) ExpandISR(ctx context.Context, req *proto.ExpandISROp) *st
 			fmt.Sprintf("Leader generation mismatch, current leader: %s epoch: %d, got leader: %s epoch: %d",
 				leader, epoch, req.Leader, req.LeaderEpoch))
 	}
+
+	verifPoint("ExpandISR:request-checked")
 
 	// Replicate ISR expand through Raft.
 	op := &proto.RaftLog{
@@ -1662,6 +1666,7 @@ func (m *metadataAPI) electNewPartitionLeader(ctx context.Context, partition *pa
 
 	// Select a new leader.
 	leader = m.selectPartitionLeader(candidates)
+	verifPoint("electNewPartitionLeader:candidate-selected")
 
 	// Replicate leader change through Raft.
 	op := &proto.RaftLog{
